@@ -712,3 +712,18 @@ def opaque_uses(t, leaf, allowed_parent):
         for ch in children_data(x):
             stack.append((ch, x))
     return bad
+
+
+def last_piece(x, sep):
+    """base term when x is the text after the last `sep` of base: base.rsplit(sep, 1)[-1], base.split(sep)[-1],
+    base.rpartition(sep)[2] (or [-1])"""
+    if x[0] != "sub" or x[1][0] != "method" or not x[1][3] or x[1][3][0] != ("const", sep):
+        return None
+    m, idx = x[1], x[2]
+    if m[1] in ("rsplit", "split") and idx == ("const", -1):
+        if m[1] == "split" and len(m[3]) > 1:
+            return None
+        return m[2]
+    if m[1] == "rpartition" and idx in (("const", 2), ("const", -1)):
+        return m[2]
+    return None
